@@ -152,6 +152,15 @@ def case_searchsorted(ctx, inp):
     m = ctx.lean(Sym("searchsorted"), side == "right", _split(ia, inp["achunks"]), iv)
     ctx.eq("searchsorted: Lean block combination vs dask", m, np.asarray(g).ravel().tolist())
     _cmp(ctx, "searchsorted", g, e)
+    # function level: the row every block of `a` contributes (np.searchsorted, 0 -> -1)
+    from dask.array.routines import _searchsorted_block
+    rows = ctx.lean(Sym("ss_blocks"), side == "right", _split(ia, inp["achunks"]), iv)
+    off = 0
+    real = []
+    for c in inp["achunks"]:
+        real.append(_searchsorted_block(a[off:off + c], v.ravel(), side)[0].tolist())
+        off += c
+    ctx.eq("_searchsorted_block", rows, real)
     bnd = set()
     off = 0
     for c in inp["achunks"]:                      # needles equal to a value sitting at a chunk boundary
@@ -267,6 +276,21 @@ def case_histogram(ctx, inp):
     g = r.compute(scheduler="sync")
     _cmp(ctx, "histogram", g, e, exact=(w is None and not inp.get("density")))
     _cmp(ctx, "histogram edges", np.asarray(re_.compute(scheduler="sync") if hasattr(re_, "compute") else re_), ee, exact=False)
+    if "edges" in inp and x.size:
+        ed = inp["edges"]
+        flat = x.ravel().tolist()
+        if ed[-1] in flat:
+            ctx.branch("histogram:value-on-closed-last-edge")
+        if set(ed[1:-1]) & set(flat):
+            ctx.branch("histogram:value-on-inner-edge")
+        if x.ndim == 1 and len(chunks[0]) > 1:
+            cut, pos = set(), 0
+            for c in chunks[0][:-1]:
+                pos += c
+                if 0 < pos < len(flat):
+                    cut.update((flat[pos - 1], flat[pos]))
+            if cut & set(ed):
+                ctx.branch("histogram:edge-value-next-to-a-chunk-boundary")
     if "edges" in inp and w is None and not inp.get("density") and x.ndim == 1 and x.dtype.kind == "i" and len(inp["edges"]) >= 2:
         m = ctx.lean(Sym("histogram"), inp["edges"], _split(x, chunks[0]))
         ctx.eq("histogram: Lean merge of per-chunk histograms = whole", m[0], m[1])
@@ -320,6 +344,13 @@ def case_unique(ctx, inp):
         ctx.branch("unique:multi-block")
     if has_nan:
         ctx.branch("unique:nan")
+    if x.ndim == 1 and len(chunks[0]) > 1:
+        pos = 0
+        for c in chunks[0][:-1]:
+            pos += c
+            if 0 < pos < x.size and (x[pos - 1] == x[pos] or (x[pos - 1] != x[pos - 1] and x[pos] != x[pos])):
+                ctx.branch("unique:duplicate-straddles-a-chunk-boundary")
+                break
 
 
 def case_unique_internal(ctx, inp):
@@ -391,8 +422,16 @@ def case_misc(ctx, inp):
         t = np.array(inp["t"], dtype="i8")
         d = da.from_array(x, chunks=tuple(tuple(c) for c in inp["chunks"]))
         dt = da.from_array(t, chunks=(tuple(inp["tchunks"]),))
-        _cmp(ctx, "isin", da.isin(d, dt, invert=inp.get("invert", False)).compute(scheduler="sync"),
-             np.isin(x, t, invert=inp.get("invert", False)))
+        g = da.isin(d, dt, invert=inp.get("invert", False)).compute(scheduler="sync")
+        _cmp(ctx, "isin", g, np.isin(x, t, invert=inp.get("invert", False)))
+        m = ctx.lean(Sym("isin"), [int(v) for v in x.ravel()], _split(t, inp["tchunks"]))
+        ctx.eq("isin: Lean any-over-the-test-blocks = membership in the whole", m[0], m[1])
+        ctx.eq("isin: Lean vs dask", m[0], [int(bool(b) != bool(inp.get("invert", False))) for b in np.asarray(g).ravel()])
+        ctx.branch("isin:model")
+        if len(inp["tchunks"]) > 1:
+            ctx.branch("isin:test-elements-multi-block")
+        if 0 in inp["tchunks"]:
+            ctx.branch("isin:test-elements-empty-chunk")
     elif op == "digitize":
         x = np.array(inp["x"], dtype=inp.get("dtype", "i8")).reshape(inp["shape"])
         if inp.get("nan") and x.dtype.kind == "f":
